@@ -146,52 +146,50 @@ func runC21(p *core.Program, r *core.Report) {
 		}
 	}
 	// --- RESTORE-DEFER (b): set(): save ≺ Set ≺ rc(restore) on success edge only
-	var saveCall, setCall, rcCall ssa.Instruction
+	var saveCall, rcCall ssa.Instruction
+	var setCalls []*ssa.Call
 	core.Instrs(setFn, func(ins ssa.Instruction) {
 		c, ok := ins.(*ssa.Call)
 		if !ok {
 			return
 		}
-		if callee := c.Call.StaticCallee(); callee != nil && core.IsFunc(callee, pkgEval, "", "save") {
+		callee := c.Call.StaticCallee()
+		if callee != nil && core.IsFunc(callee, pkgEval, "", "save") {
 			saveCall = ins
 		}
-		if c.Call.IsInvoke() && c.Call.Method.Name() == "Set" && isVarIface(c.Call.Value.Type()) {
-			setCall = ins
+		if isVarSetInvoke(c) {
+			setCalls = append(setCalls, c)
+		} else if callee != nil && core.PkgPathOf(callee) == pkgEval && nilIffVarSetSucceeded(callee) {
+			// a helper that performs the Var.Set and returns nil exactly
+			// when it succeeded stands for the Set itself
+			setCalls = append(setCalls, c)
 		}
-		if !c.Call.IsInvoke() && c.Call.StaticCallee() == nil {
+		if !c.Call.IsInvoke() && callee == nil {
 			if prm, ok := c.Call.Value.(*ssa.Parameter); ok && strings.HasSuffix(prm.Type().String(), "restoreCollector") {
 				rcCall = ins
 			}
 		}
 	})
-	if r.Anchor("RESTORE-DEFER", "save, Var.Set and rc(restore) calls in eval.set", saveCall != nil && setCall != nil && rcCall != nil) {
-		if core.Precedes(saveCall, setCall) || !reachesIns(setCall, saveCall) {
+	if r.Anchor("RESTORE-DEFER", "save, Var.Set and rc(restore) calls in eval.set", saveCall != nil && len(setCalls) > 0 && rcCall != nil) {
+		saveFirst := true
+		for _, sc := range setCalls {
+			if !(core.Precedes(saveCall, sc) || !reachesIns(sc, saveCall)) {
+				saveFirst = false
+			}
+		}
+		if saveFirst {
 			r.OK("RESTORE-DEFER", "eval.set saves the old value before Var.Set", p.InsPos(saveCall), "save cannot follow Set on any path")
 		} else {
 			r.Bad("RESTORE-DEFER", "eval.set saves the old value before Var.Set", p.InsPos(saveCall), "the value to restore is captured after the variable was already overwritten")
 		}
 		// rc(restore) only after a successful Set
-		setVal := setCall.(*ssa.Call)
-		isErr := func(v ssa.Value) bool {
-			cmp, ok := v.(*ssa.BinOp)
-			return ok && (cmp.Op == token.NEQ || cmp.Op == token.EQL) && (cmp.X == ssa.Value(setVal) || cmp.Y == ssa.Value(setVal))
-		}
 		okEdge := false
-		for _, b := range setFn.Blocks {
-			if len(b.Instrs) == 0 {
-				continue
-			}
-			iff, ok := b.Instrs[len(b.Instrs)-1].(*ssa.If)
-			if !ok || !isErr(iff.Cond) {
-				continue
-			}
-			cmp := iff.Cond.(*ssa.BinOp)
-			edge := core.EdgeTo(b, rcCall.Block())
-			if (cmp.Op == token.NEQ && edge == 1) || (cmp.Op == token.EQL && edge == 0) {
+		for _, sc := range setCalls {
+			if core.Precedes(sc, rcCall) && onNilEdgeOf(sc, rcCall.Block()) {
 				okEdge = true
 			}
 		}
-		if okEdge && core.Precedes(setCall, rcCall) {
+		if okEdge {
 			r.OK("RESTORE-DEFER", "eval.set registers the restore only after a successful Set", p.InsPos(rcCall), "rc(restore) is dominated by the err == nil edge of Var.Set")
 		} else {
 			r.Bad("RESTORE-DEFER", "eval.set registers the restore only after a successful Set", p.InsPos(rcCall), "the restore function is registered although the assignment may have failed (or before it happened): a failed tmp/with assignment would later 'restore' a variable that was never changed, or an exception between registration and Set leaves a stale restore")
@@ -415,4 +413,96 @@ func loopHeaderOf(idx ssa.Value) *ssa.BasicBlock {
 		}
 	}
 	return nil
+}
+
+// isVarSetInvoke: an interface call of vars.Var.Set.
+func isVarSetInvoke(c *ssa.Call) bool {
+	return c.Call.IsInvoke() && c.Call.Method.Name() == "Set" && isVarIface(c.Call.Value.Type())
+}
+
+// onNilEdgeOf reports whether block blk is entered only through the
+// "v == nil" edge of a branch on the (error or Exception) result v of call.
+func onNilEdgeOf(call *ssa.Call, blk *ssa.BasicBlock) bool {
+	return onResultEdgeOf(call, blk, true)
+}
+
+func onResultEdgeOf(call *ssa.Call, blk *ssa.BasicBlock, wantNil bool) bool {
+	fn := call.Parent()
+	for _, b := range fn.Blocks {
+		if len(b.Instrs) == 0 {
+			continue
+		}
+		iff, ok := b.Instrs[len(b.Instrs)-1].(*ssa.If)
+		if !ok {
+			continue
+		}
+		cmp, ok := iff.Cond.(*ssa.BinOp)
+		if !ok || (cmp.Op != token.NEQ && cmp.Op != token.EQL) {
+			continue
+		}
+		if !(cmp.X == ssa.Value(call) && isNilConst(cmp.Y) || cmp.Y == ssa.Value(call) && isNilConst(cmp.X)) {
+			continue
+		}
+		edge := core.EdgeTo(b, blk)
+		if edge < 0 {
+			continue
+		}
+		isNilEdge := (cmp.Op == token.NEQ && edge == 1) || (cmp.Op == token.EQL && edge == 0)
+		if isNilEdge == wantNil {
+			return true
+		}
+	}
+	return false
+}
+
+// nilIffVarSetSucceeded: fn performs exactly one vars.Var.Set and its single
+// (error or Exception) result is nil exactly when that Set returned nil:
+// every return of a nil constant lies on the Set's err == nil edge and every
+// other return lies on its err != nil edge and returns something made there.
+func nilIffVarSetSucceeded(fn *ssa.Function) bool {
+	if fn == nil || len(fn.Blocks) == 0 || fn.Signature.Results().Len() != 1 {
+		return false
+	}
+	var set *ssa.Call
+	count := 0
+	core.Instrs(fn, func(ins ssa.Instruction) {
+		if c, ok := ins.(*ssa.Call); ok && isVarSetInvoke(c) {
+			set = c
+			count++
+		}
+	})
+	if count != 1 {
+		return false
+	}
+	ok := true
+	nret := 0
+	core.Instrs(fn, func(ins ssa.Instruction) {
+		ret, isRet := ins.(*ssa.Return)
+		if !isRet {
+			return
+		}
+		nret++
+		if len(ret.Results) != 1 {
+			ok = false
+			return
+		}
+		if isNilConst(ret.Results[0]) {
+			if !onNilEdgeOf(set, ret.Block()) {
+				ok = false
+			}
+			return
+		}
+		// the failure side: reached only when Set failed, and the value is
+		// built there from the error (a call result, never a phi or nil)
+		if !onResultEdgeOf(set, ret.Block(), false) {
+			ok = false
+			return
+		}
+		if _, isCall := ret.Results[0].(*ssa.Call); !isCall {
+			if ret.Results[0] != ssa.Value(set) {
+				ok = false
+			}
+		}
+	})
+	return ok && nret > 0
 }
